@@ -258,7 +258,7 @@ impl Server {
         }
 
         if self.clients.len() >= self.config.max_total_connections
-            && self.active_clients.len() >= self.config.max_active_connections
+            || self.active_clients.len() >= self.config.max_active_connections
         {
             // No room in the inn
             let reply = frame::Frame::HandshakeErrorFrame(frame::HandshakeErrorFrame {
@@ -368,7 +368,11 @@ impl Server {
 
             match client.state {
                 remote_client::State::Pending(ref state) => {
-                    if handshake.nonce_ack == state.local_nonce {
+                    // A handshake is only completed while there is room for another active
+                    // connection; otherwise the client stays pending (the SYN+ACK is resent, and
+                    // the next ACK is considered again) until it times out.
+                    if handshake.nonce_ack == state.local_nonce &&
+                       self.active_clients.len() < self.config.max_active_connections {
                         use crate::packet_id;
 
                         let config = half_connection::Config {
